@@ -5,6 +5,7 @@
 import Abnf.Engine
 import Abnf.RefSem
 import Abnf.Cache
+import Abnf.Visitor
 namespace Abnf.Ext
 
 def nats (l : List String) : List Nat := l.map String.toNat!
@@ -56,11 +57,50 @@ def handleCache (toks : List String) (x : XState) : Option (String × XState) :=
       | _ => none
   | _ => none
 
+/-- prefix tree format: `N name k child*k` | `L offset length n cp*n` -/
+partial def parseTree : List String → Option (Tree × List String)
+  | "L" :: o :: l :: n :: rest =>
+    let k := n.toNat!
+    some (.leaf ((rest.take k).map String.toNat!) o.toNat! l.toNat!, rest.drop k)
+  | "N" :: name :: k :: rest =>
+    let rec go : Nat → List String → List Tree → Option (List Tree × List String)
+      | 0, rest, acc => some (acc.reverse, rest)
+      | n + 1, rest, acc =>
+        match parseTree rest with
+        | some (t, rest) => go n rest (t :: acc)
+        | none => none
+    match go k.toNat! rest [] with
+    | some (cs, rest) => some (.node name cs, rest)
+    | none => none
+  | _ => none
+
+def cpsOf (s : String) : List Nat := s.toList.map Char.toNat
+
+/-- `treeeq t1 t2` ; `dispatch <node name> key*` (prints the index of the handler invoked, or none) -/
+def handleVisitor (toks : List String) : Option String :=
+  match toks with
+  | "treeeq" :: rest =>
+    match parseTree rest with
+    | some (a, rest) =>
+      match parseTree rest with
+      | some (b, []) => some (if treeEq a b then "eq" else "ne")
+      | _ => none
+    | none => none
+  | "dispatch" :: name :: keys =>
+    let table : List (List Nat × (Tree → Nat)) := (keys.zipIdx).map (fun (k, i) => (cpsOf k, fun _ => i))
+    let t : Tree := if name == "literal" then .leaf [] 0 0 else .node name []
+    match visit table t with
+    | some i => some ("handler " ++ toString i)
+    | none => some "none"
+  | _ => none
+
 def handle (G : Grammar) (fuel : Nat) (toks : List String) (x : XState) : Option (String × XState) :=
   match toks with
   | "refends" :: r :: i :: cps => some (showRRes (refEnds G fuel (nats cps) (.ref r.toNat!) i.toNat!), x)
   | "cache" :: rest => handleCache rest x
   | "xreset" :: _ => some ("reset", {})
+  | "treeeq" :: _ => (handleVisitor toks).map (fun o => (o, x))
+  | "dispatch" :: _ => (handleVisitor toks).map (fun o => (o, x))
   | _ => none
 
 end Abnf.Ext
